@@ -160,6 +160,14 @@ def generate_dispatch(ov, arganal):
                 posargs=join(posargs[: req + i + 1] + kw_posargs),
                 mvar=mv,
             )
+            # If this argument is omitted, the ones after it must be too
+            # (they could have been given by keyword)
+            for later in (spo + po)[i + 1 :]:
+                call = (
+                    f"\nif {later} is not MISSING:"
+                    f"\n    raise TypeError(\"Argument '{later}' was given,"
+                    f" but not the preceding argument '{arg}'\")"
+                ) + call
             call = textwrap.indent(call, "        ")
             calls.append(f"\nif {arg} is MISSING:{call}")
     calls.append(fullcall)
